@@ -172,6 +172,25 @@ Definition field_of (g : graph) (x : nat) (a : aid) : val :=
   | _ => VMissing
   end.
 
+(* the own dictionary of an instance with references blurred (node numbers may
+   shift when something else legitimately changes) *)
+Definition inst_shallow (g : graph) (v : val) : option obj :=
+  match node_of g v with
+  | Some (OInst c d) =>
+      Some (OInst c (map (fun p => (fst p, match snd p with VRef _ => VRef 0 | w => w end)) d))
+  | _ => None
+  end.
+(* every frozen instance the program holds keeps its own dictionary, whatever
+   the operation and its receiver *)
+Definition frozen_roots_kept (ct : ctable) (pre post : graph) : bool :=
+  forallb (fun x => if frozen_root ct pre x
+                    then match inst_shallow pre (root_val pre x), inst_shallow post (root_val post x) with
+                         | Some a, Some b => obj_syn_eqb a b
+                         | None, None => true
+                         | _, _ => false end
+                    else true)
+          (seq 0 (length (fst pre))).
+
 Definition oracle_step (ct : ctable) (nd : nat) (pre post : graph) (xo : xop) (out : list Z) : nat :=
   match xo with
   | XSame x y a =>
@@ -217,12 +236,11 @@ Definition oracle_step (ct : ctable) (nd : nat) (pre post : graph) (xo : xop) (o
              if subset (inter dflt rest) (uncopied_nodes ct post) then 0 else 32
          end)
       (* C07 *)
-      + (if recv_frozen then
-           if is_inplace_mutation o
-           then (if unchanged then 0 else 64)
-           else if is_cow_call o && negb unchanged then 64
-           else 0
-         else 0)
+      + (if (if recv_frozen then
+                if is_inplace_mutation o then negb unchanged
+                else is_cow_call o && negb unchanged
+              else false) || negb (frozen_roots_kept ct pre post)
+         then 64 else 0)
   end.
 
 Fixpoint oracles (ct : ctable) (nd : nat) (pre : graph) (ops : list (xop * option nat)) (seen : list obs) : nat :=
